@@ -5,7 +5,8 @@ From Bnum Require Import Base Prim.
 From Bnum.Model Require Import DigitPrims LoopPrims Digit Core Imp.
 From Bnum.Model Require Shift Bits Convert.
 From Bnum.Generated Require Import DigitGen Loops.
-From Bnum.Proofs Require Import ImpLemmas ImpLemmas2.
+From Bnum.Proofs Require Import BitsLemmas ImpLemmas ImpLemmas2 LoopsTieC06.
+From Bnum.Proofs Require Bits.
 
 (* `out.digits[0] = digit` panics for N = 0; Self::ONE .. Self::TEN are from_digit(1) .. from_digit(10) *)
 Lemma loops_from_digit w n d : (0 < n)%nat ->
@@ -71,6 +72,42 @@ Proof.
   rewrite set_nth_as_list_set by (unfold ZERO; rewrite repeat_length; exact Hlt). reflexivity.
 Qed.
 
+(* ---- bits(): `Self::BITS - self.leading_zeros()` (the u32 subtraction cannot go below zero) ---- *)
+Lemma bits_of_range w n a : 0 < w -> wf w n a -> 0 <= Bits.bits_of w a <= bits w n.
+Proof.
+  intros Hw Ha. unfold Bits.bits_of. rewrite (proj1 Ha). rewrite (Bits.leading_zeros_ok w n a Hw Ha).
+  pose proof (uval_bounds w n a ltac:(lia) Ha) as Hb.
+  assert (0 <= bitlen (uval w a) <= bits w n); [|lia].
+  destruct (Z.eq_dec (uval w a) 0) as [->|Hnz]; [rewrite bitlen_0; unfold bits; nia|].
+  rewrite bitlen_pos by lia. pose proof (Z.log2_nonneg (uval w a)).
+  split; [lia|]. rewrite Bits.Mod_pow in Hb.
+  assert (Z.log2 (uval w a) < bits w n); [|lia].
+  apply Z.log2_lt_pow2; [lia|]. unfold bits. lia.
+Qed.
+
+Lemma loops_bits w n a : 0 < w -> wf w n a ->
+  forall fuel, (n <= fuel)%nat -> Loops.bits w (Z.of_nat n) fuel a = Done (Bits.bits_of w a).
+Proof.
+  intros Hw Ha fuel Hf. unfold Loops.bits. rewrite loops_leading_zeros by assumption. cbn [bind].
+  pose proof (bits_of_range w n a Hw Ha) as Hr. unfold Bits.bits_of in *. rewrite (proj1 Ha) in *. unfold bits in *.
+  rewrite usub_ok by lia. reflexivity.
+Qed.
+
+Lemma loops_checked_next_power_of_two w lg n a : 0 <= lg -> w = 2 ^ lg -> wf w n a ->
+  forall fuel, (n <= fuel)%nat ->
+  Loops.checked_next_power_of_two w (Z.of_nat n) fuel a =
+  match Bits.U_checked_next_power_of_two w a with Ret o => Done o | Panic => Panicked end.
+Proof.
+  intros Hlg Hw Ha fuel Hf. assert (0 < w) by (subst w; apply Z.pow_pos_nonneg; lia).
+  unfold Loops.checked_next_power_of_two, Bits.U_checked_next_power_of_two.
+  rewrite loops_is_power_of_two by assumption. cbn [bind].
+  destruct (Bits.U_is_power_of_two a); [reflexivity|].
+  rewrite loops_bits by assumption. cbn [bind]. rewrite (proj1 Ha). unfold bits at 1.
+  destruct (Bits.bits_of w a =? w * Z.of_nat n); [reflexivity|].
+  rewrite (loops_power_of_two w lg) by first [assumption | apply (bits_of_range w n a); assumption].
+  destruct (Bits.power_of_two w n (Bits.bits_of w a)); reflexivity.
+Qed.
+
 (* ---- all obligations of this batch in one statement ---- *)
 Theorem loops_C06b_match_model w lg : 0 <= lg -> w = 2 ^ lg ->
   (forall n d fuel, (0 < n)%nat -> Loops.from_digit w (Z.of_nat n) fuel d = Done (from_digit n d)) /\
@@ -83,11 +120,17 @@ Theorem loops_C06b_match_model w lg : 0 <= lg -> w = 2 ^ lg ->
      match Bits.set_bit w a index value with Ret r => Done r | Panic => Panicked end) /\
   (forall n power fuel, 0 <= power ->
      Loops.power_of_two w (Z.of_nat n) fuel power =
-     match Bits.power_of_two w n power with Ret r => Done r | Panic => Panicked end).
+     match Bits.power_of_two w n power with Ret r => Done r | Panic => Panicked end) /\
+  (forall n a fuel, wf w n a -> (n <= fuel)%nat -> Loops.bits w (Z.of_nat n) fuel a = Done (Bits.bits_of w a)) /\
+  (forall n a fuel, wf w n a -> (n <= fuel)%nat ->
+     Loops.checked_next_power_of_two w (Z.of_nat n) fuel a =
+     match Bits.U_checked_next_power_of_two w a with Ret o => Done o | Panic => Panicked end).
 Proof.
-  intros Hlg Hw. repeat split; intros.
+  intros Hlg Hw. assert (0 < w) by (subst w; apply Z.pow_pos_nonneg; lia). repeat split; intros.
   - apply loops_from_digit; assumption.
   - apply (loops_bit w lg); assumption.
   - apply (loops_set_bit w lg); assumption.
   - apply (loops_power_of_two w lg); assumption.
+  - apply loops_bits; assumption.
+  - apply (loops_checked_next_power_of_two w lg); assumption.
 Qed.
